@@ -556,6 +556,8 @@ def bv_to_cells(t):
     return [(t, k) for k in range(t.size() // 8)]
 def cell_eq(a, b):
     if a is None or b is None: return a is b
+    if isinstance(a[0], tuple) or isinstance(b[0], tuple):     # opaque cells (('real'|'ptr', value), byte): equal only when they carry the very same value object
+        return a[1] == b[1] and isinstance(a[0], tuple) and isinstance(b[0], tuple) and (a[0] is b[0] or (a[0][0] == b[0][0] and a[0][1] is b[0][1]))
     return a[1] == b[1] and (a[0] is b[0] or a[0].eq(b[0]))
 
 class Exec:
@@ -751,12 +753,36 @@ class Exec:
                                 cache = s.__dict__.setdefault('_opq', {})
                                 if key not in cache: cache[key] = (va[0], s.ite(c, va[1], vb[1]))
                                 out[i] = (cache[key], a[i][1])
-                            else: raise Unsupported('merge opaque/bytes')
+                            elif not s._merge_real_with_const_bytes(c, a, b, i, out): raise Unsupported('merge opaque/bytes')
                         else:
                             out[i] = (z3.If(c, cell_term(a[i]), cell_term(b[i])), 0)
                         ch = True
                 if ch: res.objs[oid] = tuple(out)
         return res
+
+    def _merge_real_with_const_bytes(s, c, a, b, i, out):
+        """merge_mem helper: on one path the bytes hold a real-mode float (opaque cell), on the other the bit pattern of a float constant
+        (e.g. an identity matrix written by memset/integer stores): the constant is converted to its real value.  c selects side a."""
+        oa = isinstance(a[i][0], tuple)
+        op, by = (a, b) if oa else (b, a)
+        kind, val = op[i][0]; k = op[i][1]
+        if kind != 'real' or not isinstance(val, RV): return False
+        n = val.n // 8; st = i - k
+        if st < 0 or st + n > len(op): return False
+        if not all(op[st + j] is not None and isinstance(op[st + j][0], tuple) and op[st + j][0][1] is val and op[st + j][1] == j for j in range(n)): return False
+        cells = by[st:st + n]
+        if any(x is None or isinstance(x[0], tuple) for x in cells): return False
+        cache = s.__dict__.setdefault('_opq_cb', {})
+        key = (id(val), tuple((x[0].get_id(), x[1]) for x in cells), oa, c.get_id())
+        if key not in cache:
+            bb = z3.simplify(cells_to_bv(list(cells), s.fresh))
+            if not z3.is_bv_value(bb): return False
+            import struct
+            d = struct.unpack('<f' if val.n == 32 else '<d', bb.as_long().to_bytes(n, 'little'))[0]
+            cv = s.fconst(d, val.n)
+            cache[key] = (('real', s.ite(c, val, cv) if oa else s.ite(c, cv, val)), val)
+        out[i] = (cache[key][0], k)
+        return True
 
     # ---------------------------------------------------------------- constants
     def const(s, c, env, mem):
